@@ -25,7 +25,7 @@ PROLOGUE = r"""
 #include <etl/mdspan.hpp>
 #include <etl/complex.hpp>
 namespace w {
-struct NT { NT(); NT(int); NT(NT const&); NT(NT&&) noexcept; NT& operator=(NT const&); NT& operator=(NT&&) noexcept; ~NT();
+struct NT { NT(); NT(int); NT(NT const&); NT(NT&&) noexcept; NT& operator=(NT const&); NT& operator=(NT&&) noexcept; ~NT(); friend bool operator>(NT const&, NT const&); friend bool operator!=(NT const&, NT const&);
             friend bool operator==(NT const&, NT const&); friend bool operator<(NT const&, NT const&); };
 struct TransparentLess { using is_transparent = void; template <class A, class B> constexpr bool operator()(A const& a, B const& b) const { return a < b; } };
 }
